@@ -5,6 +5,11 @@ ROOT = os.path.dirname(os.path.dirname(os.path.abspath(__file__)))
 
 # id -> (level category, technique, level text, level note, design ref)
 CHECKS = {
+ "C09": ("model_checking",
+   "multi-thread product BFS (round-robin mutator steps x collector micro-steps on every green thread's heap, quarantine on task teardown) against a FIFO/exactly-once/copy-at-write channel model",
+   "Sixteen producer/consumer programs covering scalar and heap payloads and every timing relation between write, read, task end, mutation after write and collection are first run without collection and compared with the channel model, then explored exhaustively over all interleavings of mutator steps with collector steps of every thread (1/2 cycles per thread) in quarantine mode; no reachable object (including through queues) may be reclaimed and every maximal path must give the model's outcome.",
+   "Bounded programs and cycles; the scheduler is the real deterministic round-robin (budgets cannot reorder tasks), host-call delays are C10's job; hooks H3 trusted.",
+   "DESIGN.md §3 C09"),
  "C07": ("model_checking",
    "product BFS (mutator x collector micro-steps) with a precision monitor; exhaustive create/run/service/drop histories under a counting allocator; real-pacing allocation loops with a differential-in-n oracle",
    "(a) In every explored schedule of the C06 product search, when a cycle finishes every object that was unreachable at its start has been reclaimed. (b) Allocation loops run under the real maybe_gc pacing keep a maximum heap that does not grow with the iteration count while completed cycles do. (c) Every history up to the bound of creating, running (1/50/all steps), servicing and dropping up to two runtimes over six programs (string constants, blocked tasks, running tasks at main's end, runtime error, pending host call, heap-heavy) returns the process's live heap bytes to the baseline once all runtimes are dropped.",
